@@ -40,6 +40,8 @@ def grids(tier):
         ({"b": 2, "a": 1, "c": 2}, ()),
         ({"b": 3, "a": 2}, ("b",)),
         ({"b": 2, "a": 2, "c": 2}, ("c",)),
+        ({"d": 3}, ()),                      # tiny distinct floats
+        ({"e": 3, "d": 2}, ("e",)),          # large close floats x tiny floats
     ]
     if tier == "thorough":
         g += [({"b": 2, "a": 3}, ()), ({"c": 3, "a": 1}, ()), ({"b": 1, "a": 1, "c": 1}, ()),
@@ -58,6 +60,9 @@ def configs(tier):
             # rep = 1..rep_max-1, so 2^(rep_max-1) masks cover all Boolean functions
             fam = [("rep", m) for m in range(2 ** (rep_max - 1))]
             fam += [("sum", s) for s in ((5,) if rep_max == 1 else (2, 3, 4, 5))]
+            if rep_max >= 2:
+                # the same predicates returning numpy booleans (truthy/falsy, not the singletons)
+                fam += [("rep_np", 2 ** (rep_max - 1) - 1), ("rep_np", 1), ("sum_np", 3)]
             for ks in fam:
                 modes = ["all"]
                 if nvar <= 4:
@@ -124,6 +129,9 @@ def execute(cfg, ctx, chk, lookups=True):
         def next_answer(rv):
             c = stream[pos[0]] if pos[0] < len(stream) else 0
             pos[0] += 1
+            # abstract state of the runner loop in which this call is made (for the evidence)
+            chk.outcome("loop_state", (_cfg_key(cfg), rv.index, len(rv.succ), sum(rv.succ), rv.skipped))
+            chk.count("loop_transitions")
             full = dict(fixed)
             full.update(rv.values)
             ref_log.append((rv.index if unpacked else -1, full))
@@ -270,8 +278,11 @@ def main(chk):
     chk.extra["deviation_bounds_used"] = sorted(set(c["bound"] for c in cfgs))
     # model-checking style numbers: every execution is a complete trace of the runner
     # state machine validated against the reference interpreter
-    chk.states = len(chk.nontrivial) + chk.counters.get("configs", 0)
-    chk.transitions = chk.counters.get("eval_executions", 0)
+    # measured: distinct abstract states of the runner loop (configuration, variation, successful
+    # repetitions, merged value, skipped count) in which a call was made; transitions = calls executed;
+    # every execution is one complete trace compared call by call with the reference interpreter
+    chk.states = len(chk.outcomes.get("loop_state", ()))
+    chk.transitions = chk.counters.get("loop_transitions", 0)
     chk.traces_validated = chk.counters.get("eval_executions", 0)
     chk.require_outcomes("result", 8)
 
